@@ -152,6 +152,9 @@ func dhtDo(op string, key []byte, param int, initial []p2p.PeerID, net *dhtNet) 
 		case "findnode":
 			res, err := kademlia.DHTFindNode(kademlia.DHTFindNodeParams{
 				Initial: nodeInfos(initial), Target: pid(key),
+				// a record is "forged" when the last byte of its id is 3 mod 4: a quarter of all records, so that
+				// answers contain runs of adjacent invalid entries
+				Validate: func(n kademlia.NodeInfo) bool { return n.ID[31]%4 != 3 },
 				Ask: func(n kademlia.NodeInfo, req kademlia.FindNodeReq) (kademlia.FindNodeRes, error) {
 					e, err := lookup(n)
 					if err != nil {
@@ -449,6 +452,21 @@ func dhtOracle(r *rand.Rand, n int, tier string, infile string) (cases int, fail
 				fail("get reports closest=%s but the nearest responder is %s", hx.Hex(run.closest[:4]), hx.Hex(best[:4]))
 			}
 		case "findnode":
+			// a record that did not pass validation is never contacted and never reported (initial peers are the
+			// caller's own and are not validated)
+			isInitial := map[p2p.PeerID]bool{}
+			for _, id := range initial {
+				isInitial[id] = true
+			}
+			for _, a := range run.asks {
+				if id := a; id[31]%4 == 3 && !isInitial[id] {
+					fail("findnode contacted %s, a record that did not pass validation", hx.Hex(id[:4]))
+					break
+				}
+			}
+			if run.closest[31]%4 == 3 && !isInitial[run.closest] && len(run.asks) > 0 {
+				fail("findnode reports closest=%s, a record that did not pass validation", hx.Hex(run.closest[:4]))
+			}
 			// the reported closest is a node that was mentioned, and no contacted node is nearer
 			if len(initial) > 0 && !mentioned[run.closest] {
 				fail("findnode reports closest=%s which nobody mentioned", hx.Hex(run.closest[:4]))
